@@ -314,6 +314,9 @@ def gen_doc(rng, fmt, w=None, nmeas=None, nstaves=None):
         o["ext"] = rng.choice([".krn", ".krn", ".kern"])
         o["final_barline"] = rng.random() < 0.7
         o["beam_marks"] = rng.random() < 0.5
+        if not o["staff_line"]:
+            for st in staves:  # without a *staff interpretation every spine is staff 1 of its own part
+                st["n"] = 1
     doc["opts"] = o
     in_ending = None
     rpt_open = False
@@ -677,11 +680,12 @@ def write_kern(doc):
             if m.get("left") == "rptstart":
                 bar += "|:"
             row([bar] * sum(width))
-        # adjust sub-spines
-        if any(want[s] > width[s] for s in range(nst)):
-            row(sum([["*^"] if want[s] > width[s] else ["*"] * width[s] for s in range(nst)], []))
+        # adjust sub-spines: merges first (old widths), then splits (widths after merging)
         if any(want[s] < width[s] for s in range(nst)):
             row(sum([["*v", "*v"] if want[s] < width[s] else ["*"] * width[s] for s in range(nst)], []))
+            width = [min(width[s], want[s]) for s in range(nst)]
+        if any(want[s] > width[s] for s in range(nst)):
+            row(sum([["*^"] if want[s] > width[s] else ["*"] * width[s] for s in range(nst)], []))
         width = list(want)
         ncol = sum(width)
         if m.get("meter"):
